@@ -4,6 +4,7 @@ import (
 	"fmt"
 	"go/token"
 	"go/types"
+	"strconv"
 	"strings"
 
 	"golang.org/x/tools/go/ssa"
@@ -85,6 +86,9 @@ func (f *Frame) enterBlock(b *ssa.BasicBlock) *cursor {
 					v = f.val(phi.Edges[j])
 					break
 				}
+			}
+			if want := f.sortFor(phi); v.Sort != want && (v.Sort == SInt || v.Sort == SBV) && (want == SInt || want == SBV) {
+				v = f.coerceSort(v, want, phi.Type())
 			}
 			if t.S == "" {
 				t = v
@@ -191,7 +195,11 @@ func (f *Frame) closeBackEdge(c *cursor, from, h *ssa.BasicBlock, cond Term) {
 		}
 		for j, p := range h.Preds {
 			if p == from {
-				env[phi] = f.val(phi.Edges[j])
+				v := f.val(phi.Edges[j])
+				if want := f.sortFor(phi); v.Sort != want && (v.Sort == SInt || v.Sort == SBV) && (want == SInt || want == SBV) {
+					v = f.coerceSort(v, want, phi.Type())
+				}
+				env[phi] = v
 			}
 		}
 	}
@@ -458,7 +466,11 @@ func (f *Frame) exec(c *cursor, in ssa.Instruction) bool {
 			f.freshFor(x, st)
 			return false
 		}
-		f.vals[x] = tup[x.Index]
+		tv := tup[x.Index]
+		if want := f.sortFor(x); tv.Sort != want && (tv.Sort == SInt || tv.Sort == SBV) && (want == SInt || want == SBV) {
+			tv = f.coerceSort(tv, want, x.Type())
+		}
+		f.vals[x] = tv
 		return false
 	case *ssa.SliceToArrayPointer, *ssa.MultiConvert:
 		e.fail("%s: unsupported instruction %T", f.fn.Name(), in)
@@ -476,10 +488,10 @@ func (f *Frame) asInt(t Term) Term {
 }
 
 func (f *Frame) fromInt(t Term, typ types.Type) Term {
-	if f.e.sortOf(typ) == SBV && t.Sort == SInt {
+	if isFlagType(typ) && t.Sort == SInt {
 		return f.intToBV(t)
 	}
-	return t
+	return t // the consumer coerces (setVal / bindResults) according to the value's role
 }
 
 func (f *Frame) coerceInt(t Term, typ types.Type) Term { return f.fromInt(t, typ) }
@@ -636,9 +648,9 @@ func (f *Frame) execUnOp(c *cursor, x *ssa.UnOp) {
 			f.guard(c, "nil", x, not(eq(lv.base, intLit(0))))
 		}
 		t := f.loadLV(lv, st)
-		want := e.sortOf(x.Type())
+		want := f.sortFor(x)
 		if t.Sort != want {
-			t = f.coerce(t, et, x.Type())
+			t = f.coerceSort(t, want, x.Type())
 		}
 		d := f.setVal(x, t)
 		f.typeFacts(d, x.Type(), st)
@@ -1218,6 +1230,15 @@ func (f *Frame) checkAnchors(c *cursor, b *ssa.BasicBlock, idx int, in ssa.Instr
 		switch {
 		case strings.HasPrefix(anchor, "call "):
 			want := strings.TrimSpace(anchor[5:])
+			ord := 0
+			if k := strings.LastIndex(want, "#"); k > 0 {
+				if n, err := strconv.Atoi(want[k+1:]); err == nil {
+					ord, want = n, want[:k]
+				}
+			}
+			if ord > 0 && f.callOrdinal(in, want) != ord {
+				return false
+			}
 			var cc *ssa.CallCommon
 			switch x := in.(type) {
 			case *ssa.Call:
@@ -1287,4 +1308,28 @@ func calleeName(cc *ssa.CallCommon) string {
 		return v.Name()
 	}
 	return cc.Value.Name()
+}
+
+// callOrdinal: position of a call among the calls of the same callee, in
+// the static order of the function's instructions.
+func (f *Frame) callOrdinal(in ssa.Instruction, callee string) int {
+	n := 0
+	for _, b := range f.fn.Blocks {
+		for _, i2 := range b.Instrs {
+			var cc *ssa.CallCommon
+			switch x := i2.(type) {
+			case *ssa.Call:
+				cc = &x.Call
+			case *ssa.Defer:
+				cc = &x.Call
+			}
+			if cc != nil && calleeName(cc) == callee {
+				n++
+			}
+			if i2 == in {
+				return n
+			}
+		}
+	}
+	return -1
 }
